@@ -73,6 +73,24 @@ pub mod expand;
 pub mod invoker;
 pub mod subscriptions;
 
+/// Verification hook (feature `verif`): lets a harness cut the transmit buffer
+/// the Interaction Model responders use below `MAX_EXCHANGE_TX_BUF_SIZE`.
+#[cfg(feature = "verif")]
+pub mod verif_tx {
+    use core::sync::atomic::{AtomicUsize, Ordering};
+
+    static TX_BUF_SIZE: AtomicUsize = AtomicUsize::new(usize::MAX);
+
+    /// Set the length the TX buffers are cut to (`usize::MAX` = leave them alone).
+    pub fn set_tx_buf_size(size: usize) {
+        TX_BUF_SIZE.store(size, Ordering::SeqCst);
+    }
+
+    pub(crate) fn tx_buf_size() -> usize {
+        TX_BUF_SIZE.load(Ordering::SeqCst)
+    }
+}
+
 /// Resource-utilisation metrics for the node, as reported by
 /// `GeneralDiagnostics::DeviceLoadStatus`.
 #[derive(Debug, Clone, Default, PartialEq, Eq)]
@@ -1462,6 +1480,9 @@ where
             // Always safe as `IMBuffer` is defined to be `MAX_EXCHANGE_RX_BUF_SIZE`, which is bigger than `MAX_EXCHANGE_TX_BUF_SIZE`
             unwrap!(tx.resize_default(MAX_EXCHANGE_TX_BUF_SIZE));
 
+            #[cfg(feature = "verif")]
+            tx.truncate(verif_tx::tx_buf_size());
+
             let outcome = self
                 .report_data(rctx, &mut tx, &mut exchange, false)
                 .await?;
@@ -1655,6 +1676,9 @@ where
         if let Some(mut buffer) = self.buffer(exchange).await? {
             // Always safe as `IMBuffer` is defined to be `MAX_EXCHANGE_RX_BUF_SIZE`, which is bigger than `MAX_EXCHANGE_TX_BUF_SIZE`
             unwrap!(buffer.resize_default(MAX_EXCHANGE_TX_BUF_SIZE));
+
+            #[cfg(feature = "verif")]
+            buffer.truncate(verif_tx::tx_buf_size());
 
             Ok(Some(buffer))
         } else {
